@@ -301,7 +301,7 @@ fn start_states(tier: Tier) -> Vec<FaultCfg> {
     };
     let bases: Vec<(usize, Option<BuildOpts>)> = match tier {
         Tier::Quick => vec![(0, None), (3, Some(b(Some(2), Some(1)))), (4, Some(b(Some(2), Some(1)))), (6, Some(b(None, None))), (6, Some(b(Some(3), Some(1))))],
-        Tier::Thorough => vec![(0, None), (3, Some(b(Some(2), Some(1)))), (4, Some(b(Some(2), Some(1)))), (6, Some(b(None, None))), (6, Some(b(Some(3), Some(1)))), (9, Some(b(Some(2), Some(2))))],
+        Tier::Thorough => vec![(0, None), (3, Some(b(Some(2), Some(1)))), (4, Some(b(Some(2), Some(1)))), (6, Some(b(None, None))), (6, Some(b(Some(3), Some(1)))), (9, Some(b(Some(2), Some(2)))), (14, Some(b(Some(4), Some(1)))), (25, Some(b(Some(2), Some(3))))],
     };
     let pendings: Vec<Vec<(u32, Option<usize>)>> = vec![
         vec![(100, Some(0))],
@@ -313,7 +313,7 @@ fn start_states(tier: Tier) -> Vec<FaultCfg> {
     ];
     let faulted: Vec<BuildOpts> = match tier {
         Tier::Quick => vec![b(Some(2), Some(1)), b(None, None), b(Some(3), Some(1))],
-        Tier::Thorough => vec![b(Some(2), Some(1)), b(None, None), b(Some(1), Some(2)), b(Some(3), Some(1))],
+        Tier::Thorough => vec![b(Some(2), Some(1)), b(None, None), b(Some(1), Some(2)), b(Some(3), Some(1)), b(Some(1), Some(1)), b(Some(5), Some(2))],
     };
     let mut out = Vec::new();
     for (metric, dim) in metrics {
